@@ -706,7 +706,10 @@ def gen_vsem(rng, tier):
     seeds = [[(0, 0), (1, 1, 0), (6, 1)], [(0, 0), (2, 2, 0), (6, 2), (6, 0)], [(0, 0), (3, 1, 0), (6, 1)],
              [(0, 0), (4, 1, 0), (6, 1), (1, 2, 1), (6, 2)], [(0, 0), (1, 1, 0), (1, 2, 1), (6, 2)], [(0, 1), (7,), (6, 1)],
              # a parameter set with more stages than the State was created for; an older State after such a change
-             [(0, 0), (8, 0, 1)], [(0, 1), (8, 1, 0), (0, 0), (8, 1, 1), (6, 0)], [(0, 0), (8, 0, 0), (0, 1), (1, 2, 1), (8, 2, 1), (6, 1)]]
+             [(0, 0), (8, 0, 1)], [(0, 1), (8, 1, 0), (0, 0), (8, 1, 1), (6, 0)], [(0, 0), (8, 0, 0), (0, 1), (1, 2, 1), (8, 2, 1), (6, 1)],
+             # assignment onto a State that already owns scratch of other dimensions; a moved-to solver keeps the source's parameters
+             [(9, 1), (0, 0), (2, 1, 0), (6, 1)], [(9, 2), (0, 0), (4, 2, 0), (6, 2)], [(0, 0), (9, 1), (2, 0, 1), (0, 2), (2, 0, 2), (6, 0)],
+             [(0, 0), (7,), (6, 0)], [(0, 0), (8, 0, 0), (7,), (6, 0)]]
     for kind in (0, 1):
         for L in (0, 3):
             for sq in seeds:
@@ -717,7 +720,7 @@ def gen_vsem(rng, tier):
         n = rng.randrange(3, 13 if tier != "thorough" else 31)
         ops = [(0, rng.randrange(4))]
         for _ in range(n):
-            o = rng.choice([0, 1, 1, 2, 2, 3, 4, 5, 6, 6, 6, 7, 8, 8])
+            o = rng.choice([0, 0, 1, 1, 2, 2, 2, 3, 4, 5, 6, 6, 6, 7, 8, 8, 9])
             if o == 0:
                 ops.append((0, rng.randrange(4)))
             elif o in (1, 2, 3, 4):
@@ -728,6 +731,8 @@ def gen_vsem(rng, tier):
                 ops.append((6, rng.randrange(4)))
             elif o == 8:
                 ops.append((8, rng.randrange(4), rng.randrange(2)))
+            elif o == 9:
+                ops.append((9, rng.randrange(4)))
             else:
                 ops.append((7,))
         out.append("vsem %d %d %d %s" % (kind, L, len(ops), " ".join(" ".join(map(str, o)) for o in ops)))
